@@ -60,6 +60,18 @@ func genOffender(seed uint64, tier string, force string) *Scenario {
 			g.steps = append(g.steps, st)
 		}
 	}
+	if offJoined && force == "" && r.Bool(0.25) {
+		// the offender has switched session before (per-connection state that must follow it)
+		g.join(2, "S1")
+		if r.Bool(0.5) {
+			st := g.makeOp(2, "entity_add")
+			st.NoPose = false
+			g.steps = append(g.steps, st)
+		}
+		if r.Bool(0.4) {
+			g.join(2, "S0")
+		}
+	}
 	sc := &Scenario{Prop: "C08", Family: "offender", Seed: seed}
 	sc.World = genWorld(seed, r, p)
 	sc.World.Modules = []string{"vikja", "odal", "dagaz"}
@@ -104,6 +116,14 @@ func genOffender(seed uint64, tier string, force string) *Scenario {
 			off.Cut = []int{60, 600, 700}[r.Intn(3)]
 			off.Poses = 1 + r.Intn(5)
 		}
+		if offJoined && off.N >= 200 && r.Bool(0.5) {
+			// a third member of the session, who will switch away while relays are held up
+			g.join(3, "S0")
+			if g.nConns < 4 {
+				g.nConns = 4
+			}
+			off.Switcher = 3
+		}
 		if off.Poses > 0 {
 			// the witness needs an entity to move
 			st := g.makeOp(0, "entity_add")
@@ -147,6 +167,7 @@ func genOffender(seed uint64, tier string, force string) *Scenario {
 		}
 		off.Then = []string{"fin", "rst"}[r.Intn(2)]
 	case "silence", "keepalive":
+		off.Skew = []int64{0, 0, 3600, -3600, 86400 * 365, -946684000}[r.Intn(6)]
 		sc.World.IdleTimeout = []time.Duration{time.Second, 2 * time.Second, 30 * time.Second, 5 * time.Minute}[r.Intn(4)]
 		// frames short enough that the set-up cannot run into the idle timeout, long enough
 		// to keep the number of frame ticks per run bounded
